@@ -4,6 +4,7 @@ import Srtla.Lemmas.RunLevelGhost
 import Srtla.Lemmas.RunLevelGhostReload
 import Srtla.Lemmas.ProbeRateReload
 import Srtla.Lemmas.AccountingReload
+import Srtla.Lemmas.WireIds
 import Srtla.Lemmas.SysDir
 import Srtla.Lemmas.SysInvQual
 import Srtla.Props.C03
@@ -1403,5 +1404,76 @@ example (c : Nat) := @C01_intact_in_order_by_id Int fixScalar exSysR ⟨by decid
 example := @C01_hold_run_reload Int fixScalar exSysR ⟨by decide, by decide⟩ exEvsR exEvsR_fresh
 
 end probeRateByIdExamples
+
+/-! ## 14. Every wire output names a PRESENT link (audit 5, C1)
+
+The by-conn-id wire log `Ghost.wireLogId` (sections 12, 13: `C01_accounting_by_id`, `C01_intact_in_order_by_id`)
+reads, for a conn id `c`, only events that start from a state in which `c` names a link, and drops everything else
+BY DEFINITION.  Those theorems alone would stay true if a flush put queued datagrams on the socket of a REMOVED
+conn id.  This section closes that: no event of the shell ever puts a datagram on the socket of a conn id that no
+link of the state it starts from carries (helper lemmas: `Lemmas/WireIds.lean`), so the guard is redundant
+(`C01_wire_log_guard_redundant`: the log WITHOUT the guard is the same list).
+Scope: `Out.wire` of the shell model (client / flush / hk / uplink arms; `drain_packet_queue` delivers uplink
+events); the model identifies a socket with the conn id of its link, so "the socket of a removed link" is
+expressible only as "a conn id no present link carries". -/
+
+section wireIds
+
+/-- **Every wire output names a present link.**  Whatever event the shell performs from whatever state: every
+datagram it puts on an uplink socket is addressed to the conn id of a link of the state the event STARTS from; a
+reload puts nothing on any socket. -/
+theorem C01_wire_names_present_link (s : Sys F) (ev : Ev) :
+    (∀ x ∈ (step s ev).2.wire, x.1 ∈ s.links.map (·.core.connId)) ∧
+    (ev.isReload = true → (step s ev).2.wire = []) := by
+  refine ⟨step_wire_ids s ev, fun h => ?_⟩
+  cases ev <;> first | rfl | cases h
+
+/-- **… along every run** (reloads included; no hypothesis on the start state or the events): the output of the
+`k`-th event names only links present in the state the run has reached after its first `k` events - in particular
+never a conn id removed by an earlier reload (unless a later reload re-drew it for a new link). -/
+theorem C01_wire_names_present_link_run (s : Sys F) (evs : List Ev) (k : Nat) (o : Out)
+    (ho : (run s evs).2[k]? = some o) :
+    ∀ x ∈ o.wire, x.1 ∈ (run s (evs.take k)).1.links.map (·.core.connId) :=
+  run_wire_ids s evs k o ho
+
+/-- The by-conn-id wire log WITHOUT the presence guard of `Ghost.wireLogId`. -/
+def wireLogRaw (s : Sys F) : List Ev → Nat → List Bytes
+  | [], _ => []
+  | ev :: evs, c => dataWire ev (step s ev).2 c ++ wireLogRaw (step s ev).1 evs c
+
+/-- **The presence guard of the by-conn-id wire log is redundant**: for every run and every conn id the guarded log
+of sections 12 / 13 IS the unguarded one - nothing was defined away. -/
+theorem C01_wire_log_guard_redundant (s : Sys F) (evs : List Ev) (c : Nat) :
+    Ghost.wireLogId s evs c = wireLogRaw s evs c := by
+  induction evs generalizing s with
+  | nil => rfl
+  | cons ev evs ih =>
+    show (if c ∈ ids s.links then dataWire ev (step s ev).2 c else []) ++ Ghost.wireLogId (step s ev).1 evs c = _
+    rw [ih]
+    by_cases hc : c ∈ ids s.links
+    · rw [if_pos hc]; rfl
+    · rw [if_neg hc]
+      show _ = dataWire ev (step s ev).2 c ++ wireLogRaw (step s ev).1 evs c
+      rw [dataWire_absent s ev c hc]
+
+end wireIds
+
+section wireIdsExamples
+
+/-- On the run of section 12 (non-pristine start: probe counter 99, a gated link; the reload at index 2 REMOVES conn
+id 1 while it holds two queued datagrams): the only event that sends is the final flush, and it sends on conn id 3
+only - a present link -, nothing on the removed id 1; the link sets along the run. -/
+example :
+    (@run Int fixScalar exSysR exEvsR).2.map (fun o => o.wire.map (·.1)) = [[], [], [], [], [3, 3]] ∧
+    ((List.range 6).map fun k => @ids Int (@run Int fixScalar exSysR (exEvsR.take k)).1.links) =
+      [[1, 3], [1, 3], [1, 3], [3, 7], [3, 7], [3, 7]] ∧
+    @wireLogRaw Int fixScalar exSysR exEvsR 1 = [] ∧ @wireLogRaw Int fixScalar exSysR exEvsR 3 = [exData, exCtl] := by
+  refine ⟨?_, ?_, ?_, ?_⟩ <;> decide +kernel
+
+example (ev : Ev) := @C01_wire_names_present_link Int fixScalar exSysR ev
+example (k : Nat) (o : Out) := @C01_wire_names_present_link_run Int fixScalar exSysR exEvsR k o
+example (c : Nat) := @C01_wire_log_guard_redundant Int fixScalar exSysR exEvsR c
+
+end wireIdsExamples
 
 end Srtla.Props.C01
